@@ -227,7 +227,8 @@ pub fn run(args: &Args) -> i32 {
     )
     .with_min_nontrivial(20);
     let threads = n_threads();
-    let max_cases: u64 = args.tier.pick(3000, 300_000);
+    // quick: fixed case set per seed (deterministic; the time budget is only a safety net)
+    let max_cases: u64 = args.tier.pick(1100, 300_000);
     let preds_per_state = args.tier.pick(12, 30);
     let max_rows = args.tier.pick(300, 1500);
     let next = AtomicU64::new(0);
@@ -243,7 +244,7 @@ pub fn run(args: &Args) -> i32 {
             }
             case = c;
         }
-        if case >= max_cases || !report.time_left() {
+        if (only_case.is_none() && case >= max_cases) || !report.time_left() {
             break;
         }
         let mut rng = Rng::for_case(args.seed, case);
